@@ -368,6 +368,7 @@ class Gen:
             return [self.pick(["%s.transfer({to: %s, v: %s});", "%s.approve({s: %s, v: %s});"]) % (t, self.aexpr(sc), self.uexpr(sc, 3))]
         if k == "assembly" and v:
             return self.pick([["assembly { %s := add(%s, 1) }" % (v, v)],
+                              ['assembly ("memory-safe") { %s := add(%s, 2) }' % (v, v)],
                               ["assembly {", "    let p := mload(0x40)", "    %s := mul(p, 2)" % v, "}"],
                               ["assembly {", "    let p := mload(0x40)", "    mstore(p, %s)" % v, "}"]])
         if k == "dowhile" and v and d < 3:
